@@ -8,40 +8,67 @@ import struct
 from twisted.internet.testing import StringTransport
 from twisted.protocols import amp
 from twisted.python import filepath
+from twisted.python._tzhelper import FixedOffsetTimeZone
 
-HEADLINE = "TwistedProps.C30.parse_serialize / stream_roundtrip / arg_roundtrip_partial"
+HEADLINE = "TwistedProps.C30.parse_serialize / stream_roundtrip / arg_roundtrip"
 RULE = ("streams of 0..5 boxes (0..6 items; key lengths around 0/1/255/256, value lengths around 0/255/256/65535/65536, "
         "bytes incl. NUL) sent through BinaryBoxProtocol.sendBox and cut at random / every / boundary±1 positions incl. "
         "empty chunks; raw malformed chunk sequences (over-long key prefix, truncation, data after lengthLimitExceeded); "
-        "AmpBox.serialize alone; toString/fromString of Integer, String, Unicode, Boolean, ListOf (nested) on boundary "
-        "values and on mutated/hostile encodings (int() leniency, overlong/surrogate/truncated UTF-8, broken list "
-        "framing); non-bytes keys/values and Float/Decimal/DateTime/Path/AmpList/Command round trips are run on the real "
-        "code only (oracle, no Lean model: differential testing); distinct = (op, size/boundary classes, cut style, "
-        "outcome classes)")
+        "AmpBox.serialize alone; toStringProto/fromStringProto of Integer, String, Unicode, Boolean, Decimal (sign/coefficient/"
+        "exponent around the scientific-notation boundaries, ±Infinity, ±NaN/±sNaN with payloads), DateTime (fields at their "
+        "limits, leap days, offsets at ±0/±1 min/±23:59:59.999999, sub-minute and out-of-range offsets, naive values), ListOf "
+        "(nested) and AmpList (8 schemas: optional arguments, nested AmpList, DateTime/Decimal/ListOf fields, keyword and "
+        "dashed names, 255/256-byte names, empty schema) on boundary values AND on mutated/hostile encodings (int() leniency, "
+        "overlong/surrogate/truncated UTF-8, broken list framing, lenient/out-of-range/mis-sized DateTime texts, the "
+        "Decimal(str) grammar incl. underscores/whitespace/case, AmpList rows with missing/unknown/duplicate keys and over-long "
+        "key prefixes) — all through BOTH the real classes and the Lean model; non-bytes keys/values and "
+        "Float/Path/Command round trips are run on the real code only (oracle); distinct = (op, type, size/boundary "
+        "classes, cut style, offset / notation class, outcome classes)")
 ASSUMES = [
     "sender is a connected, unlocked BinaryBoxProtocol that is not buffering for STARTTLS; no protocol switch",
     "a box is a dict of bytes→bytes; str/None keys or values (TypeError) are checked by the oracle on the real code only",
     "Integer: |n| < 10**4300 (CPython's int↔str digit limit raises ValueError beyond it on both encode and decode)",
-    "Float, Decimal, DateTime, Path, AmpList, Command.makeArguments/parseArguments are NOT modelled in Lean: their "
-    "round trip is differential testing on the real code (repr(float)/float(), decimal.Decimal str/constructor, "
-    "datetime arithmetic are CPython's)",
+    "Float: float(repr(x)) == x (NaN ↦ NaN) is a HYPOTHESIS of arg_roundtrip (FloatCodec parameter; CPython guarantee), "
+    "exercised by the oracle on the real code only",
+    "Path: a FilePath is its text-mode .path, a fixed point of os.path.abspath (a parameter of the model, hypothesis "
+    "ValidVal); a bytes-mode FilePath decodes as a text-mode one (not comparable with == in Python 3); oracle only",
+    "DateTime: a datetime is modelled by its fields + utcoffset() in microseconds (not as an instant; tzinfo name/dst are "
+    "not part of the value); the decoded tzinfo is observed through FixedOffsetTimeZone.offset",
+    "Decimal: str(Decimal) as specified by Decimal.__str__ with context.capitals == 1 (the default); exponents within "
+    "libmpdec's ±999999999999999999 (every existing Decimal is; text with a larger exponent is refused by the real "
+    "parser and is outside the model and the generators)",
+    "AmpList: schema names are distinct (also after _wireNameToPythonIdentifier) and a row dict has exactly the schema's "
+    "keys (a missing optional key is treated like None and comes back as None); ListOf(AmpList(...)) is excluded — "
+    "ListOf's docstring restricts element types to toString/fromString arguments and the real code raises TypeError",
+    "Command.makeArguments/parseArguments (same _objectsToStrings/_stringsToObjects plumbing) is covered by the oracle only",
     "the code points of a str are < 0x110000 (Python invariant)",
 ]
-TRUSTED = ["CPython struct.pack('!H'), bytes ordering (sorted on distinct bytes keys), int(bytes), str.encode/bytes.decode('utf-8')"]
+TRUSTED = ["CPython struct.pack('!H'), bytes ordering (sorted on distinct bytes keys), int(bytes/str), str.encode/bytes.decode('utf-8'), "
+           "decimal.Decimal str/constructor and datetime.datetime/timedelta (tied differentially to the Lean transcription), "
+           "repr(float)/float(), os.path.abspath (parameters)"]
 MANIFEST = {
     "text": "Lean theorems (TwistedProps/C30.lean): for every list of boxes with distinct keys of 1..255 bytes and values "
             "≤ 65535 bytes and EVERY segmentation of the concatenated AmpBox.serialize output, a fresh BinaryBoxProtocol "
             "receives exactly those boxes (equal as dicts), never calls lengthLimitExceeded and keeps no leftover "
             "(parse_serialize, received_boxes_equal); serialize/sendBox accept exactly the representable boxes — empty key, "
             "over-long key/value, empty box are refused and nothing is written — so for ANY dicts sent and ANY cut the peer "
-            "parses exactly the representable ones (stream_roundtrip). PARTIAL for argument types: fromString(toString v) = v "
-            "is proved for Integer, String, Unicode(UTF-8), Boolean and ListOf of them to any depth (arg_roundtrip_partial); "
-            "Float, Decimal, DateTime, Path, AmpList values and non-bytes refusals (TypeError) have no Lean model and are "
-            "covered by differential testing on the real code only. Model tied to amp.py/basic.py by differential runs.",
+            "parses exactly the representable ones (stream_roundtrip). Argument types (arg_roundtrip): for Integer, String, "
+            "Unicode(UTF-8), Boolean, Decimal (Decimal.__str__ and the Decimal(str) grammar transcribed: every "
+            "sign/coefficient/exponent, ±Infinity, ±NaN/±sNaN payloads — decimal_roundtrip), DateTime (32-character text, "
+            "int() slices, datetime range checks transcribed; equal up to the UTC offset cut to whole minutes TOWARDS ZERO — "
+            "datetime_roundtrip, offsetMinutes_spec, exact for whole-minute offsets), ListOf to any depth and AmpList with any "
+            "schema of distinct names (optional arguments, nested AmpLists; rows → toBox → serialize → parseString → fromBox, "
+            "reusing parse_serialize), every value toString accepts decodes to an equal value (normVal: identity except the "
+            "DateTime offset; normVal_id). Float and Path enter through two platform parameters with hypotheses "
+            "float(repr x) = x and abspath p = p for a FilePath's path. Non-bytes refusals (TypeError), Float/Path/Command "
+            "are covered by the oracle on the real code. Model tied to amp.py/basic.py/_tzhelper.py by differential runs.",
     "note": "trusts Lean kernel, the hand-written model of AmpBox.serialize / IntNStringReceiver.dataReceived / "
-            "BinaryBoxProtocol.proto_* / Argument subclasses (differentially tied), CPython struct/int/utf-8",
-    "technique": "Lean 4 proof (incremental-parser continuation lemma + induction over chunks/boxes/items; digit and UTF-8 "
-                 "arithmetic by omega) + differential tie + oracle",
+            "BinaryBoxProtocol.proto_* / Argument subclasses incl. Decimal.__str__/Decimal(str) and DateTime text "
+            "(differentially tied), CPython struct/int/utf-8/decimal/datetime; repr(float)/float and os.path.abspath are "
+            "hypotheses",
+    "technique": "Lean 4 proof (incremental-parser continuation lemma + induction over chunks/boxes/items; digit, UTF-8 and "
+                 "fixed-width-field arithmetic by omega; mutual structural induction over argument types and AmpList schemas) "
+                 "+ differential tie + oracle",
     "design_ref": "DESIGN.md §7.6 C30",
 }
 
@@ -146,98 +173,286 @@ def box_of(items):
 # ----------------------------------------------------------------------------------------
 # argument values (modelled types)
 
+def parse_ty(s):
+    """type syntax of the driver → nested tuple: ('int',) … ('L', t) / ('A', [(namehex, optional, t), …])"""
+    t, rest = _parse_ty(s)
+    if rest:
+        raise ValueError(s)
+    return t
+
+
+def _parse_ty(s):
+    for base in ("int", "str", "uni", "bool", "dec", "dt"):
+        if s.startswith(base):
+            return (base,), s[len(base):]
+    if s.startswith("L"):
+        t, rest = _parse_ty(s[1:])
+        return ("L", t), rest
+    if s.startswith("A("):
+        s = s[2:]
+        fields = []
+        while not s.startswith(")"):
+            k = min(x for x in (s.find("?"), s.find("!")) if x >= 0)
+            t, rest = _parse_ty(s[k + 1:])
+            fields.append((s[:k], s[k] == "?", t))
+            s = rest[1:] if rest.startswith(",") else rest
+        return ("A", fields), s[1:]
+    raise ValueError(s)
+
+
+_TY_CACHE = {}
+
+
+def pty(ty):
+    if ty not in _TY_CACHE:
+        _TY_CACHE[ty] = parse_ty(ty)
+    return _TY_CACHE[ty]
+
+
 def mk_arg(ty):
-    if ty == "int":
+    return _mk_arg(pty(ty) if isinstance(ty, str) else ty)
+
+
+def _mk_arg(t):
+    k = t[0]
+    if k == "int":
         return amp.Integer()
-    if ty == "str":
+    if k == "str":
         return amp.String()
-    if ty == "uni":
+    if k == "uni":
         return amp.Unicode()
-    if ty == "bool":
+    if k == "bool":
         return amp.Boolean()
-    if ty.startswith("L"):
-        return amp.ListOf(mk_arg(ty[1:]))
-    raise ValueError(ty)
+    if k == "dec":
+        return amp.Decimal()
+    if k == "dt":
+        return amp.DateTime()
+    if k == "L":
+        return amp.ListOf(_mk_arg(t[1]))
+    if k == "A":
+        return amp.AmpList([(unhx(name), _opt(_mk_arg(ft), opt)) for name, opt, ft in t[1]])
+    raise ValueError(t)
+
+
+def _opt(a, opt):
+    a.optional = opt
+    return a
+
+
+def _pykey(namehex):
+    return amp._wireNameToPythonIdentifier(unhx(namehex))
+
+
+US_DAY = 86400 * 10 ** 6
+US_MIN = 60 * 10 ** 6
 
 
 def to_py(ty, v):
-    if ty == "int":
+    return _to_py(pty(ty) if isinstance(ty, str) else ty, v)
+
+
+def _to_py(t, v):
+    k = t[0]
+    if k == "int":
         return int(v)
-    if ty == "str":
+    if k == "str":
         return unhx(v)
-    if ty == "uni":
+    if k == "uni":
         return "".join(chr(c) for c in v)
-    if ty == "bool":
+    if k == "bool":
         return bool(v)
-    return [to_py(ty[1:], x) for x in v]
+    if k == "dec":
+        if v[0] == "F":
+            return decimal.Decimal((int(v[1]), tuple(int(c) for c in str(int(v[2]))), int(v[3])))
+        if v[0] == "I":
+            return decimal.Decimal((int(v[1]), (0,), "F"))
+        p = int(v[3])
+        return decimal.Decimal((int(v[1]), tuple(int(c) for c in str(p)) if p else (), "N" if v[2] else "n"))
+    if k == "dt":
+        y, mo, d, h, mi, s, us, off = v
+        tz = None if off is None else FixedOffsetTimeZone(datetime.timedelta(microseconds=off))
+        return datetime.datetime(y, mo, d, h, mi, s, us, tzinfo=tz)
+    if k == "L":
+        return [_to_py(t[1], x) for x in v]
+    if k == "A":
+        return [{_pykey(name): (None if x is None else _to_py(ft, x)) for (name, opt, ft), x in zip(t[1], row)} for row in v]
+    raise ValueError(t)
 
 
 def val_tokens(ty, v):
     """JSON case value → driver tokens"""
-    if ty == "int":
+    return _val_tokens(pty(ty) if isinstance(ty, str) else ty, v)
+
+
+def _val_tokens(t, v):
+    k = t[0]
+    if k == "int":
         return ["i" + str(int(v))]
-    if ty == "str":
+    if k == "str":
         return ["s" + v]
-    if ty == "uni":
+    if k == "uni":
         return ["u" + ",".join(str(c) for c in v)]
-    if ty == "bool":
+    if k == "bool":
         return ["b1" if v else "b0"]
+    if k == "dec":
+        if v[0] == "F":
+            return [f"dF{int(v[1])},{int(v[2])},{int(v[3])}"]
+        if v[0] == "I":
+            return [f"dI{int(v[1])}"]
+        return [f"dN{int(v[1])},{int(v[2])},{int(v[3])}"]
+    if k == "dt":
+        return ["t" + ",".join(str(x) for x in v[:7]) + "," + ("n" if v[7] is None else str(v[7]))]
     out = ["["]
-    for x in v:
-        out += val_tokens(ty[1:], x)
+    if k == "L":
+        for x in v:
+            out += _val_tokens(t[1], x)
+    else:
+        for row in v:
+            out.append("{")
+            for (name, opt, ft), x in zip(t[1], row):
+                out += ["N"] if x is None else _val_tokens(ft, x)
+            out.append("}")
     return out + ["]"]
+
+
+def _td_us(td):
+    return (td.days * 86400 + td.seconds) * 10 ** 6 + td.microseconds
 
 
 def py_tokens(ty, o):
     """decoded python object → tokens (type-strict: a wrong Python type is visible)"""
-    if ty == "int":
+    return _py_tokens(pty(ty) if isinstance(ty, str) else ty, o)
+
+
+def _py_tokens(t, o):
+    k = t[0]
+    if k == "int":
         if type(o) is not int:
             return ["?" + type(o).__name__]
         return ["i" + str(o)]
-    if ty == "str":
+    if k == "str":
         if type(o) is not bytes:
             return ["?" + type(o).__name__]
         return ["s" + hx(o)]
-    if ty == "uni":
+    if k == "uni":
         if type(o) is not str:
             return ["?" + type(o).__name__]
         return ["u" + ",".join(str(ord(c)) for c in o)]
-    if ty == "bool":
+    if k == "bool":
         if type(o) is not bool:
             return ["?" + type(o).__name__]
         return ["b1" if o else "b0"]
+    if k == "dec":
+        if type(o) is not decimal.Decimal:
+            return ["?" + type(o).__name__]
+        sign, digits, e = o.as_tuple()
+        num = int("".join(map(str, digits)) or "0")
+        if e == "F":
+            return [f"dI{sign}"]
+        if e in ("n", "N"):
+            return [f"dN{sign},{int(e == 'N')},{num}"]
+        return [f"dF{sign},{num},{e}"]
+    if k == "dt":
+        if type(o) is not datetime.datetime:
+            return ["?" + type(o).__name__]
+        tz = o.tzinfo
+        # the tzinfo's own attribute: utcoffset() refuses what fromString can build (e.g. +99:99)
+        off = "n" if tz is None else str(_td_us(tz.offset)) if isinstance(tz, FixedOffsetTimeZone) else "?tz"
+        return [f"t{o.year},{o.month},{o.day},{o.hour},{o.minute},{o.second},{o.microsecond},{off}"]
     if type(o) is not list:
         return ["?" + type(o).__name__]
     out = ["["]
-    for x in o:
-        out += py_tokens(ty[1:], x)
+    if k == "L":
+        for x in o:
+            out += _py_tokens(t[1], x)
+    else:
+        for row in o:
+            if type(row) is not dict:
+                return ["?" + type(row).__name__]
+            out.append("{")
+            for name, opt, ft in t[1]:
+                x = row.get(_pykey(name), _MISSING)
+                out += ["?missing"] if x is _MISSING else ["N"] if x is None else _py_tokens(ft, x)
+            if len(row) != len(t[1]):
+                out.append("?extra-keys")
+            out.append("}")
     return out + ["]"]
 
 
 def representable(ty, v):
     """is toString expected to succeed? (the statement's own precondition for a value)"""
-    if ty == "int":
+    return _representable(pty(ty) if isinstance(ty, str) else ty, v)
+
+
+def _representable(t, v):
+    k = t[0]
+    if k == "int":
         return len(str(abs(int(v)))) <= 4300
-    if ty == "uni":
+    if k == "uni":
         return all(not (0xD800 <= c < 0xE000) for c in v)
-    if ty.startswith("L"):
-        if not all(representable(ty[1:], x) for x in v):
+    if k == "dt":
+        return v[7] is not None and -US_DAY < v[7] < US_DAY
+    if k == "L":
+        if not all(_representable(t[1], x) for x in v):
             return False
-        return all(_enc_len(ty[1:], x) <= 65535 for x in v)
+        return all(_enc_len(t[1], x) <= 65535 for x in v)
+    if k == "A":
+        for row in v:
+            for (name, opt, ft), x in zip(t[1], row):
+                if x is None:
+                    if not opt:
+                        return False
+                    continue
+                if not 1 <= len(name) // 2 <= 255 or not _representable(ft, x) or _enc_len(ft, x) > 65535:
+                    return False
+        return True
     return True
 
 
-def _enc_len(ty, v):
+def _enc_len(t, v):
     """length of the wire form computed independently of twisted"""
-    if ty == "int":
+    k = t[0]
+    if k == "int":
         return len(str(int(v)))
-    if ty == "str":
+    if k == "str":
         return len(v) // 2
-    if ty == "uni":
+    if k == "uni":
         return sum(1 if c < 0x80 else 2 if c < 0x800 else 3 if c < 0x10000 else 4 for c in v)
-    if ty == "bool":
+    if k == "bool":
         return 4 if v else 5
-    return sum(2 + _enc_len(ty[1:], x) for x in v)
+    if k == "dt":
+        return 32
+    if k == "dec":
+        return len(str(_to_py(t, v)))
+    if k == "L":
+        return sum(2 + _enc_len(t[1], x) for x in v)
+    return sum(2 + sum(4 + len(name) // 2 + _enc_len(ft, x) for (name, opt, ft), x in zip(t[1], row) if x is not None) for row in v)
+
+
+def expected_back(ty, v):
+    """the value the statement promises after a round trip: equal, DateTime up to the minute resolution of its
+    offset (rounded towards zero)"""
+    return _expected_back(pty(ty) if isinstance(ty, str) else ty, v)
+
+
+def _expected_back(t, v):
+    k = t[0]
+    if k == "dt" and v[7] is not None:
+        m = abs(v[7]) // US_MIN * US_MIN
+        return v[:7] + [m if v[7] >= 0 else -m]
+    if k == "L":
+        return [_expected_back(t[1], x) for x in v]
+    if k == "A":
+        return [[None if x is None else _expected_back(ft, x) for (name, opt, ft), x in zip(t[1], row)] for row in v]
+    return v
+
+
+def ty_class(ty):
+    """coarse class of a type string for oracle keys / tags"""
+    t = pty(ty)
+    while t[0] == "L":
+        t = t[1]
+    return t[0]
 
 
 # ----------------------------------------------------------------------------------------
@@ -321,11 +536,6 @@ def amplist_arg():
     return amp.AmpList([(name, _opt(mk_arg(ty), opt)) for name, ty, opt in AMPLIST_SCHEMA])
 
 
-def _opt(a, opt):
-    a.optional = opt
-    return a
-
-
 def amplist_objs(rows):
     out = []
     for row in rows:
@@ -398,6 +608,49 @@ def corpus():
         {"op": "dec", "ty": "uni", "hex": "f48fbfbf"},
         {"op": "dec", "ty": "bool", "hex": hx(b"true")},
         {"op": "dec", "ty": "Lint", "hex": "000131000232"},
+        # DateTime / Decimal / AmpList through the Lean model
+        {"op": "enc", "ty": "dt", "val": [2012, 1, 23, 12, 34, 56, 54321, -(3600 + 30) * 10 ** 6]},
+        {"op": "enc", "ty": "dt", "val": [2, 12, 25, 23, 27, 53, 1, -86399 * 10 ** 6 + 1]},       # the repaired rounding: -23:59, not -24:00
+        {"op": "enc", "ty": "dt", "val": [9999, 12, 31, 23, 59, 59, 999999, US_DAY - 1]},
+        {"op": "enc", "ty": "dt", "val": [1, 1, 1, 0, 0, 0, 0, 0]},
+        {"op": "enc", "ty": "dt", "val": [2024, 2, 29, 0, 0, 0, 0, -30 * 10 ** 6]},
+        {"op": "enc", "ty": "dt", "val": [2012, 6, 1, 0, 0, 0, 0, None]},
+        {"op": "enc", "ty": "dt", "val": [2012, 6, 1, 0, 0, 0, 0, US_DAY]},
+        {"op": "enc", "ty": "dt", "val": [2012, 6, 1, 0, 0, 0, 0, -US_DAY]},
+        {"op": "dec", "ty": "dt", "hex": hx(b"2012-01-23T12:34:56.054321+99:99")},
+        {"op": "dec", "ty": "dt", "hex": hx(b"2012x01y23z12a34b56c054321+01d23")},
+        {"op": "dec", "ty": "dt", "hex": hx(b" 012-01-23T12:34:56.054321-01:23")},
+        {"op": "dec", "ty": "dt", "hex": hx(b"20_2-01-23T12:34:56.054321--1:23")},
+        {"op": "dec", "ty": "dt", "hex": hx(b"+001-01-23T12:34:50.054321-01:+3")},
+        {"op": "dec", "ty": "dt", "hex": hx(b"2012-01-23T12:34:56.054321 01:23")},
+        {"op": "dec", "ty": "dt", "hex": hx(b"2023-02-29T12:34:56.054321+01:23")},
+        {"op": "dec", "ty": "dt", "hex": hx(b"2024-02-29T12:34:56.054321+01:23")},
+        {"op": "dec", "ty": "dt", "hex": hx(b"1900-02-29T12:34:56.054321+01:23")},
+        {"op": "dec", "ty": "dt", "hex": hx(b"0000-01-23T12:34:56.054321-01:23")},
+        {"op": "dec", "ty": "dt", "hex": hx(b"2012-01-23T12:34:56.054321-01:2\xff")},
+        {"op": "dec", "ty": "dt", "hex": hx(b"2012-01-23T12:34:56.054321-01:230")},
+        {"op": "enc", "ty": "dec", "val": ["F", 1, "1234", -2]},
+        {"op": "enc", "ty": "dec", "val": ["F", 0, "15", 1]},
+        {"op": "enc", "ty": "dec", "val": ["F", 0, "0", -7]},
+        {"op": "enc", "ty": "dec", "val": ["F", 0, "1", -6]},
+        {"op": "enc", "ty": "dec", "val": ["F", 0, "1", -7]},
+        {"op": "enc", "ty": "dec", "val": ["F", 1, "0", 3]},
+        {"op": "enc", "ty": "dec", "val": ["F", 0, "123456", -12]},
+        {"op": "enc", "ty": "dec", "val": ["N", 1, 1, "123"]},
+        {"op": "enc", "ty": "dec", "val": ["N", 0, 0, "0"]},
+        {"op": "enc", "ty": "dec", "val": ["I", 1]},
+    ] + [{"op": "dec", "ty": "dec", "hex": hx(t)} for t in DEC_TEXTS] + [
+        {"op": "enc", "ty": SCHEMAS[0], "val": [["1", "6162", None, True, ["1", "-2"]], ["5", "", [0x41], None, None]]},
+        {"op": "enc", "ty": SCHEMAS[1], "val": [[None, ["F", 0, "15", 1], [[2012, 1, 23, 12, 34, 56, 54321, 3630 * 10 ** 6]]]]},
+        {"op": "enc", "ty": SCHEMAS[2], "val": [[[[None, [0xE9]], ["7", []]], None]]},
+        {"op": "enc", "ty": SCHEMAS[3], "val": [[], []]},
+        {"op": "enc", "ty": SCHEMAS[5], "val": [["61", "3"]]},
+        {"op": "enc", "ty": SCHEMAS[6], "val": [["3", True]]},
+        {"op": "enc", "ty": SCHEMAS[0], "val": [["1", "61" * 65536, None, None, None]]},
+        {"op": "dec", "ty": SCHEMAS[0], "hex": hx(b"\x00\x01n\x00\x011\x00\x00")},                       # required key `s` missing: KeyError
+        {"op": "dec", "ty": SCHEMAS[4], "hex": hx(b"\x00\x00\x00\x05extra\x00\x01x\x00\x00")},          # empty row, unknown key
+        {"op": "dec", "ty": SCHEMAS[4], "hex": hx(b"\x01\x00")},                                            # parseString: AttributeError
+        {"op": "dec", "ty": SCHEMAS[4], "hex": hx(b"\x00\x04only\x00\x011\x00\x04only\x00\x012\x00\x00\x00\x04on")},  # duplicate key, truncated tail
         {"op": "arg", "kind": "float", "val": struct.pack(">d", -0.0).hex()},
         {"op": "arg", "kind": "float", "val": "7ff8000000000000"},
         {"op": "arg", "kind": "decimal", "val": "-sNaN123"},
@@ -526,7 +779,53 @@ CPS = [0, 0x41, 0x7F, 0x80, 0xFF, 0x7FF, 0x800, 0xFFF, 0x1000, 0xD7FF, 0xE000, 0
 
 
 def _gen_val(rng, ty, depth=0):
-    if ty == "int":
+    return _gen_val_t(rng, pty(ty) if isinstance(ty, str) else ty, depth)
+
+
+DEC_COEFFS = [0, 1, 9, 10, 15, 100, 123, 1000, 99999, 100000, 123456, 1234567, 10 ** 27 - 1, 10 ** 28, 123456789012345678901234567890123456789]
+DEC_EXPS = [0, 0, 1, -1, 2, -2, 3, -3, -5, -6, -7, -8, 5, 6, 7, 28, -28, 400, -400, 6144, -6176, 999999, -999999]
+OFFS_US = [0, US_MIN, -US_MIN, 60 * US_MIN, -60 * US_MIN, 330 * US_MIN, -570 * US_MIN, 1439 * US_MIN, -1439 * US_MIN,
+           US_DAY - 1, -(US_DAY - 1), US_DAY - 10 ** 6, -(US_DAY - 10 ** 6), 30 * 10 ** 6, -30 * 10 ** 6, 59 * 10 ** 6, -59 * 10 ** 6,
+           1, -1, US_MIN - 1, -(US_MIN - 1), US_MIN + 1, -(US_MIN + 1)]
+BAD_OFFS_US = [None, US_DAY, -US_DAY, US_DAY + 1, -(US_DAY + 7), 3 * US_DAY]
+
+
+def _gen_dt(rng, bad_p=0.06):
+    y = rng.choice([1, 2, 4, 100, 400, 1000, 1900, 1970, 2000, 2012, 2024, 9999, rng.randint(1, 9999)])
+    mo = rng.randint(1, 12)
+    leap = y % 4 == 0 and (y % 100 != 0 or y % 400 == 0)
+    dim = [31, 29 if leap else 28, 31, 30, 31, 30, 31, 31, 30, 31, 30, 31][mo - 1]
+    d = rng.choice([1, dim, rng.randint(1, dim)])
+    r = rng.random()
+    if r < bad_p:
+        off = rng.choice(BAD_OFFS_US)
+    elif r < 0.6:
+        off = rng.choice(OFFS_US)
+    elif r < 0.8:
+        off = US_MIN * rng.randint(-1439, 1439)
+    else:
+        off = rng.randint(-(US_DAY - 1), US_DAY - 1)
+    return [y, mo, d, rng.choice([0, 23, rng.randint(0, 23)]), rng.choice([0, 59, rng.randint(0, 59)]),
+            rng.choice([0, 59, rng.randint(0, 59)]), rng.choice([0, 1, 999999, 100000, 54321, rng.randrange(10 ** 6)]), off]
+
+
+def _gen_decv(rng):
+    r = rng.random()
+    if r < 0.08:
+        return ["I", rng.randint(0, 1)]
+    if r < 0.2:
+        return ["N", rng.randint(0, 1), rng.randint(0, 1), str(rng.choice([0, 0, 1, 7, 123, 10 ** 20 + 3, rng.randrange(10 ** 9)]))]
+    c = rng.choice(DEC_COEFFS) if rng.random() < 0.5 else rng.randrange(10 ** rng.choice([1, 2, 3, 6, 7, 12, 30]))
+    e = rng.choice(DEC_EXPS) if rng.random() < 0.5 else rng.randint(-12, 8)
+    if rng.random() < 0.3:      # exponents around the "no exponent needed" boundary: leftdigits = exp + ndigits vs -6 and 0
+        n = len(str(c))
+        e = rng.choice([-n - 7, -n - 6, -n - 5, -n - 1, -n, -n + 1, -1, 0, 1])
+    return ["F", rng.randint(0, 1), str(c), e]
+
+
+def _gen_val_t(rng, t, depth=0):
+    k = t[0]
+    if k == "int":
         r = rng.random()
         if r < 0.4:
             return str(rng.choice(INTS))
@@ -534,22 +833,46 @@ def _gen_val(rng, ty, depth=0):
             e = rng.choice([1, 2, 5, 20, 100, 1000, 4299])
             return str(rng.choice([1, -1]) * (10 ** e + rng.choice([-1, 0, 1])))
         return str(rng.choice([1, -1]) * rng.randrange(10 ** rng.choice([1, 3, 9, 30])))
-    if ty == "str":
+    if k == "str":
         n = rng.choice([0, 0, 1, 2, 5, 30]) if rng.random() < 0.97 else rng.choice([65535, 65536, 65533]) if depth else 300
         return hx(_bytes(rng, n))
-    if ty == "uni":
+    if k == "uni":
         n = rng.choice([0, 1, 1, 2, 3, 6, 12])
         out = [rng.choice(CPS) if rng.random() < 0.8 else rng.randrange(0x110000) for _ in range(n)]
         if rng.random() < 0.06 and out:
             out[rng.randrange(len(out))] = rng.choice([0xD800, 0xDBFF, 0xDC00, 0xDFFF])
         return out
-    if ty == "bool":
+    if k == "bool":
         return rng.random() < 0.5
+    if k == "dt":
+        return _gen_dt(rng)
+    if k == "dec":
+        return _gen_decv(rng)
     n = rng.choice([0, 1, 1, 2, 3, 5]) if depth < 2 else rng.choice([0, 1, 2])
-    return [_gen_val(rng, ty[1:], depth + 1) for _ in range(n)]
+    if k == "L":
+        return [_gen_val_t(rng, t[1], depth + 1) for _ in range(n)]
+    rows = []
+    for _ in range(n):
+        rows.append([None if (opt and rng.random() < 0.4) else _gen_val_t(rng, ft, depth + 1) for name, opt, ft in t[1]])
+    return rows
 
 
-TYPES = ["int", "str", "uni", "bool", "Lint", "Lstr", "Luni", "Lbool", "LLint", "LLuni", "LLLstr"]
+def _name(b):
+    return hx(b)
+
+
+SCHEMAS = [
+    "A(%s!int,%s!str,%s?uni,%s?bool,%s?Lint)" % tuple(_name(x) for x in (b"n", b"s", b"u", b"flag", b"l")),
+    "A(%s?dt,%s!dec,%s?Ldt)" % tuple(_name(x) for x in (b"when", b"amount", b"more-dates")),
+    "A(%s!A(%s?int,%s!uni),%s?str)" % tuple(_name(x) for x in (b"inner", b"a", b"b", b"tail")),
+    "A()",
+    "A(%s?int)" % _name(b"only"),
+    "A(%s!str,%s!int)" % (_name(b"z" * 255), _name(b"a")),            # keys sort differently from schema order
+    "A(%s!int,%s!bool)" % (_name(b"k" * 256), _name(b"ok")),          # over-long name: TooLong at toString
+    "A(%s!dt,%s!int,%s?dec)" % tuple(_name(x) for x in (b"from", b"class", b"b\x00")),   # python keywords, NUL in a name
+]
+TYPES = ["int", "str", "uni", "bool", "Lint", "Lstr", "Luni", "Lbool", "LLint", "LLuni", "LLLstr",
+         "dt", "dt", "dt", "dec", "dec", "dec", "Ldt", "Ldec", "LLdec"] + SCHEMAS
 
 
 def _mutate(rng, b):
@@ -570,11 +893,48 @@ def _mutate(rng, b):
     return bytes(b)
 
 
+DEC_TEXTS = [b"1_0", b"_", b"N_aN", b" 1 ", b"\x1c1\x1f", b"1\x00", b"iNfInItY", b"inf", b"INF", b"infi", b"infinit", b"infinityx", b".5", b"5.",
+             b".", b"E5", b"1E", b"1e+", b"1e-05", b"+-1", b"snan007", b"SNAN", b"nan-1", b"-sNaN", b"+nan12", b"1 2", b"_ 1", b"1\xff", b"0x1",
+             b"1E+999999", b"", b"+", b"-", b"--1", b"1.2.3", b"1e5e5", b"1.e5", b".e5", b"0.e5", b"00012.3400", b"0000", b"-0.000E+3",
+             b"+.0e-0", b"1e+_5", b"1_e5", b"nan1.5", b"nane5", b"infe5", b"1E+5 ", b"\t\n-12.5e-3\r", b"1\x0b", b"\x851", b"1e", b"e", b"1ee5",
+             b"12E0012", b"0.00000001", b"1e-7", b"123456e-12", b"NaN0", b"NaN00", b"sNaN000123", b"Infinity0", b"-inf_inity"]
+
+
+def _hostile_dt(rng):
+    v = _gen_dt(rng, 0)
+    raw = bytearray(amp.DateTime().toString(to_py("dt", v)))
+    for _ in range(rng.choice([1, 1, 1, 2, 3])):
+        r = rng.random()
+        if r < 0.35:       # a field made lenient-int()-shaped or out of range
+            a, b = rng.choice([(0, 4), (5, 7), (8, 10), (11, 13), (14, 16), (17, 19), (20, 26), (27, 29), (30, 32)])
+            w = b - a
+            alt = rng.choice([b" " * (w - 1) + b"7", b"7" + b" " * (w - 1), b"+" + b"3" * (w - 1), b"-" + b"1" * (w - 1), b"-" + b"0" * (w - 1),
+                              b"1_" + b"2" * (w - 2) if w > 2 else b"_1", b"0" * w, b"9" * w, b"13"[:w].rjust(w, b"0"), b"24"[:w].rjust(w, b"0"),
+                              b"60"[:w].rjust(w, b"0"), b"29"[:w].rjust(w, b"0"), b"30"[:w].rjust(w, b"0"), b"31"[:w].rjust(w, b"0"),
+                              b"\t" + b"5" * (w - 1), b"5" * (w - 1) + b"\n", b"\x1c" + b"5" * (w - 1), b"x" * w, b"1" + b"_" * (w - 1)])
+            raw[a:b] = alt[:w].ljust(w, b"0")
+        elif r < 0.5:      # separators are not looked at
+            raw[rng.choice([4, 7, 10, 13, 16, 19, 29])] = rng.choice([0, 0x20, 0x7F, 0x80, 0xFF, ord("x"), ord("5")])
+        elif r < 0.65:
+            raw[26] = rng.choice([ord("+"), ord("-"), ord(" "), ord("Z"), 0, 0x2212 & 0xFF, 0xFF])
+        elif r < 0.8:      # February / leap years
+            raw[0:4] = rng.choice([b"1900", b"2000", b"2023", b"2024", b"0004", b"0100", b"0400", b"9999"])
+            raw[5:7] = rng.choice([b"02", b"02", b"04", b"12"])
+            raw[8:10] = rng.choice([b"28", b"29", b"30", b"31"])
+        elif r < 0.9:
+            pos = rng.randrange(len(raw) + 1)
+            raw[pos:pos] = rng.choice([b"0", b" ", b"\x00"])
+        else:
+            del raw[rng.randrange(len(raw))]
+    return bytes(raw)
+
+
 def _gen_dec(rng):
-    ty = rng.choice(["int"] * 4 + ["uni"] * 4 + ["bool", "Lint", "Lint", "Luni", "Lbool", "LLint", "Lstr", "str"])
+    ty = rng.choice(["int"] * 4 + ["uni"] * 4 + ["bool", "Lint", "Lint", "Luni", "Lbool", "LLint", "Lstr", "str"]
+                    + ["dt"] * 5 + ["dec"] * 5 + ["Ldt", "Ldec"] + SCHEMAS[:3] * 2 + SCHEMAS[3:])
     v = _gen_val(rng, ty)
     try:
-        raw = mk_arg(ty).toString(to_py(ty, v))
+        raw = mk_arg(ty).toStringProto(to_py(ty, v), None)
     except Exception:
         raw = b""
     if ty == "int" and rng.random() < 0.5:
@@ -582,6 +942,37 @@ def _gen_dec(rng):
         raw = rng.choice([b"", b" ", b"\t\n", b"\x0b\x0c\r", b"\x1c"]) + rng.choice([b"", b"", b"+", b"-", b"+-", b"- "]) + body + rng.choice([b"", b"", b" ", b"\n\n", b"\x00", b" x"])
     elif ty == "bool" and rng.random() < 0.7:
         raw = rng.choice([b"True", b"False", b"true", b"TRUE", b"1", b"0", b"", b"True ", b"Fals", b"Falsee"])
+    elif ty == "dt" and rng.random() < 0.8:
+        raw = _hostile_dt(rng)
+    elif ty == "dec" and rng.random() < 0.5:
+        raw = rng.choice(DEC_TEXTS)
+        if rng.random() < 0.3:
+            raw = rng.choice([b"", b"-", b"+", b" "]) + raw
+    elif ty.startswith("A(") and rng.random() < 0.5:
+        # a row box given directly: missing required keys, unknown keys, duplicate keys, keys in any order, over-long key prefix
+        t = pty(ty)
+        chunks = []
+        for _ in range(rng.choice([1, 1, 2, 3])):
+            items = []
+            for name, opt, ft in t[1]:
+                if rng.random() < 0.75 and 1 <= len(name) // 2 <= 255:
+                    fv = _gen_val_t(rng, ft, 2)
+                    try:
+                        enc = _mk_arg(ft).toStringProto(_to_py(ft, fv), None)
+                    except Exception:
+                        enc = b"?"
+                    if rng.random() < 0.15:
+                        enc = _mutate(rng, enc)
+                    items.append((unhx(name), enc[:65535]))
+            if rng.random() < 0.3:
+                items.append((rng.choice([b"extra", b"n", b"a", b"when"]), b"1"))
+            rng.shuffle(items)
+            chunks.append(b"".join(struct.pack("!H", len(k)) + k + struct.pack("!H", len(x)) + x for k, x in items) + b"\x00\x00")
+        raw = b"".join(chunks)
+        if rng.random() < 0.15:
+            raw = _mutate(rng, raw)
+        if rng.random() < 0.08:
+            raw += rng.choice([b"\x01\x00", b"\xff\xff", b"\x00\x01k\xff\xff"])
     elif rng.random() < 0.6:
         raw = _mutate(rng, raw)
     if len(raw) > 70000:
@@ -725,14 +1116,14 @@ def run_impl(c):
     if op == "enc":
         arg = mk_arg(c["ty"])
         try:
-            return hx(arg.toString(to_py(c["ty"], c["val"]))) or "-"
-        except (ValueError, TypeError, struct.error) as e:
+            return hx(arg.toStringProto(to_py(c["ty"], c["val"]), None)) or "-"
+        except (ValueError, TypeError, struct.error, amp.TooLong) as e:
             return "!raised " + type(e).__name__
     if op == "dec":
         arg = mk_arg(c["ty"])
         try:
-            return " ".join(py_tokens(c["ty"], arg.fromString(unhx(c["hex"]))))
-        except (ValueError, TypeError) as e:
+            return " ".join(py_tokens(c["ty"], arg.fromStringProto(unhx(c["hex"]), None)))
+        except (ValueError, TypeError, KeyError, AttributeError, decimal.InvalidOperation) as e:
             return "!raised " + type(e).__name__
     if op == "refuse":
         wire, status = send_all([{b"ok": b"1"}, _bad_box(c), {b"ok": b"2"}])
@@ -823,18 +1214,19 @@ def oracle(c, out):
     if op == "enc":
         ty = c["ty"]
         ok = representable(ty, c["val"])
+        cls = ty_class(ty)
         if out.startswith("!"):
             if ok:
-                return {"key": "arg-refused-" + ty.lstrip("L"), "detail": f"{ty} value refused: {out}"}
+                return {"key": "arg-refused-" + cls, "detail": f"{ty} value refused: {out}"}
             return None
         if not ok:
-            return {"key": "arg-unrepresentable-encoded-" + ty.lstrip("L"), "detail": f"{ty} {str(c['val'])[:80]} encoded as {out[:80]}"}
+            return {"key": "arg-unrepresentable-encoded-" + cls, "detail": f"{ty} {str(c['val'])[:80]} encoded as {out[:80]}"}
         try:
-            back = mk_arg(ty).fromString(unhx(out.replace("-", "")))
+            back = mk_arg(ty).fromStringProto(unhx(out.replace("-", "")), None)
         except Exception as e:
-            return {"key": "arg-roundtrip-" + ty.lstrip("L"), "detail": f"decoding own encoding raised {type(e).__name__}"}
-        if py_tokens(ty, back) != val_tokens(ty, c["val"]):
-            return {"key": "arg-roundtrip-" + ty.lstrip("L"), "detail": f"{ty} {str(c['val'])[:80]} came back as {' '.join(py_tokens(ty, back))[:120]}"}
+            return {"key": "arg-roundtrip-" + cls, "detail": f"{ty} {str(c['val'])[:80]}: decoding own encoding raised {type(e).__name__}"}
+        if py_tokens(ty, back) != val_tokens(ty, expected_back(ty, c["val"])):
+            return {"key": "arg-roundtrip-" + cls, "detail": f"{ty} {str(c['val'])[:80]} came back as {' '.join(py_tokens(ty, back))[:120]}"}
         return None
     if op == "arg":
         kind = c["kind"]
@@ -857,6 +1249,12 @@ def _lenclass(n):
     return 99999
 
 
+def _tyname(ty):
+    for i, sch in enumerate(SCHEMAS):
+        ty = ty.replace(sch, f"A#{i}")
+    return ty
+
+
 def tag(c, out):
     op = c["op"]
     if op == "stream":
@@ -871,9 +1269,16 @@ def tag(c, out):
     if op == "serialize":
         return "serialize:" + (out if out.startswith("!") else f"ok{min(len(c['box']), 3)}")
     if op == "enc":
-        return f"enc:{c['ty']}:" + (out if out.startswith("!") else f"ok{_lenclass(len(out) // 2)}")
+        extra = ""
+        if c["ty"] == "dt" and c["val"][7] is not None:
+            o = c["val"][7]
+            extra = ":" + ("neg" if o < 0 else "pos" if o > 0 else "utc") + ("" if o % US_MIN == 0 else "-submin" if abs(o) > US_MIN else "-under1min")
+        if c["ty"] == "dec" and not out.startswith("!"):
+            txt = unhx(out)
+            extra = ":" + ("special" if txt.lstrip(b"-")[:1].isalpha() else ("E" if b"E" in txt else "") + ("." if b"." in txt else "") + ("neg" if txt[:1] == b"-" else ""))
+        return f"enc:{_tyname(c['ty'])}{extra}:" + (out if out.startswith("!") else f"ok{_lenclass(len(out) // 2)}")
     if op == "dec":
-        return f"dec:{c['ty']}:" + (out if out.startswith("!") else "ok")
+        return f"dec:{_tyname(c['ty'])}:" + (out if out.startswith("!") else "ok")
     if op == "refuse":
         return "refuse:" + c["bad"]
     return "arg:" + c["kind"] + (":raised" if out.startswith("!") else "")
